@@ -388,6 +388,8 @@ def null_list_terms():
             ("overflow-literal", T.binop("Eq", n, ("Integer", "9223372036854775808")))]
     out += [("named-builtin", T.binop("Eq", T.call("substring", T.named("fullstr", T.Str("zzz")), T.named("fullstr", s), T.named("index", T.Int(0))), s)),
             ("named-builtin", T.binop("Eq", T.call("length", T.named("arg", L12)), two)), ("named-builtin", T.call("contains", T.named("field", s), T.named("field", T.Str("x"))))]
+    out += [("named-builtin", T.binop("Eq", T.call("substring", T.named("fullstr", s), T.named("nchars", two)), s)), ("named-builtin", T.binop("Eq", T.call("substring", T.named("index", one), T.named("nchars", two)), s)),
+            ("named-builtin", T.call("contains", T.named("substr", T.Str("a")), T.named("nope", s)))]
     out += [("named-builtin", T.binop("Eq", T.call("length", T.named("x", s)), one)), ("named-builtin", T.call("contains", T.named("a", s), T.named("b", T.Str("x")))),
             ("named-builtin", T.binop("Eq", T.call("round", T.named("self", x)), one)), ("named-builtin", T.binop("Eq", T.call("length", T.named("arg", s)), one))]
     return out
@@ -600,6 +602,11 @@ def run(ctx):
     ctx.layer("django-q-keyword-names", names=2, exhaustive=True)
     nh = history_layer(ctx)
     ctx.layer("history-forward-reverse", cases=nh, exhaustive=True)
+    # every component of a duration literal is represented (SQL dialects: reading of C09's duration layer; ORMs: the bound timedelta)
+    nd = C09.duration_layer(ctx)
+    nd += orm_duration_layer(ctx)
+    ctx.layer("duration-components", translations=nd, exhaustive=True,
+              note="SQL dialects: the interval expression denotes every signed component of the literal; ORM backends: the bound timedelta equals the literal's value")
     if not ctx.quick:
         before = ctx.counts["states"]
         red = typed.Enumerator(SC.reduced_sigs(C18.sigs()), {k_: v[:1] for k_, v in enum().leaves.items()})
@@ -612,8 +619,48 @@ def run(ctx):
         ctx.layer("typed-matrix-k3-reduced", terms=int(ctx.counts["states"] - before), exhaustive=True)
 
 
+def orm_duration_layer(ctx):
+    """the ORM backends bind a duration as a timedelta: it must be the literal's own value (years / months use the library's documented
+    averages of 365.25 and 30.44 days)"""
+    import datetime as dt
+    from vt import durref
+    from odata_query.sqlalchemy import AstToSqlAlchemyCoreVisitor
+    from odata_query.django.django_q import AstToDjangoQVisitor
+    django_h.setup()
+    n = 0
+    secs = {"YEAR": 365.25 * 86400, "MONTH": 30.44 * 86400, "DAY": 86400, "HOUR": 3600, "MINUTE": 60, "SECOND": 1}
+    for lit in durref.DURATION_LITERALS:
+        want = sum(float(v) * secs[u] for u, v in durref.duration_components(lit).items())
+        tree = _ps.parse(_lx.tokenize("duration'%s'" % lit))
+        ctx.count("states")
+        for backend in ("sqlalchemy", "django"):
+            n += 1
+            ctx.count("executions")
+            try:
+                if backend == "sqlalchemy":
+                    got = AstToSqlAlchemyCoreVisitor(sa_h.Post.__table__).visit(tree).value
+                else:
+                    from vt_dj import models as _m
+                    got = AstToDjangoQVisitor(_m.Post).visit(tree)
+                    got = (got.children[0] if hasattr(got, "children") else got).value
+            except Exception as e:  # noqa
+                ctx.violation("%s:duration:exc:%s" % (backend, type(e).__name__), {"filter": "duration'%s'" % lit, "backend": backend, "kind": "duration-value"})
+                continue
+            if not isinstance(got, dt.timedelta) or abs(got.total_seconds() - want) > 1e-3:
+                ctx.violation("%s:duration:value" % backend, {"filter": "duration'%s'" % lit, "backend": backend, "kind": "duration-value", "got": str(got), "want_seconds": want})
+            else:
+                ctx.outcome(("duration-value", backend))
+    return n
+
+
 def replay(ctx, case):
     django_h.setup()
+    if case.get("layer") == "durations":
+        return C09.replay(ctx, case)
+    if case.get("kind") == "duration-value":
+        acc = Acc()
+        orm_duration_layer(acc)
+        return {"violations": acc.violations, "ok": not acc.violations}
     term = decode(_ps.parse(_lx.tokenize(case["filter"])))
     if case.get("kind") == "unknown-field":
         acc = Acc()
